@@ -132,3 +132,9 @@ package introspection
 //@   ensures {a.reported.default.value.is.imported.or.an.error.is.returned} defaultValue != nil && result1 == nil ==> result0.IsDefined
 //@   ensures {no.default.value.is.invented} defaultValue == nil ==> !result0.IsDefined && result1 == nil
 //@   modifies *
+
+// C17: the reason of @deprecated is nullable - `@deprecated(reason: null)` is a valid schema and means "deprecated,
+// without a reason"; it must not reach the content accessor, which panics for a null value
+//@ func introspectionVisitor.deprecationReason
+//@   requires i != nil && i.definition != nil
+//@   modifies *
